@@ -160,7 +160,7 @@ def main():
     if tier == 'thorough':
         bunits = [u for u in spec['units'] if u in bx.UNIT_HARNESS and results[u].status != 'undecided']
         if bunits:
-            br = bx.run(bunits, REPO, seed=seed, n=150, depth=5)
+            br = bx.run(bunits, REPO, seed=seed, n=400, depth=6, timeout=1800)
             bounded.append({'units': bunits, 'bounded': True, 'why': 'thorough tier: cross-check of the contracts on the compiled code',
                             'stats': br.stats, 'status': br.status, 'cmd': br.cmd})
             cmds.append(br.cmd)
